@@ -57,3 +57,31 @@ class FitMsgBroker:
             msg.fit = self
             for subscriber in self.__subscribers.get(type(msg), ()):
                 subscriber._notify(msg)
+
+
+# Verification hook (guarded, add-only): when EOS_VERIF=1 the delivery order of
+# a message to its subscribers is chosen by a callable the verification
+# harness installs as FitMsgBroker._verif_order(msg, subscribers) -> iterable.
+import os as _os
+if _os.environ.get('EOS_VERIF') == '1':
+
+    def _verif_ordered(self, msg):
+        subscribers = self._FitMsgBroker__subscribers.get(type(msg), ())
+        order = getattr(FitMsgBroker, '_verif_order', None)
+        if order is None:
+            return subscribers
+        return order(msg, tuple(subscribers))
+
+    def _verif_publish(self, msg):
+        msg.fit = self
+        for subscriber in _verif_ordered(self, msg):
+            subscriber._notify(msg)
+
+    def _verif_publish_bulk(self, msgs):
+        for msg in msgs:
+            msg.fit = self
+            for subscriber in _verif_ordered(self, msg):
+                subscriber._notify(msg)
+
+    FitMsgBroker._publish = _verif_publish
+    FitMsgBroker._publish_bulk = _verif_publish_bulk
